@@ -658,14 +658,23 @@ def mag_zero(vals, r):
     return None
 
 @pred
-def cart_close(vals, r1, r2, blades):
+def cart_close(vals, r1, r2, blades, operands=None):
+    """two results denote the same vector; `operands` (registers of the summands) enables the
+    sqrt(eps)*scale allowance of near-total cancellation"""
     a, b = vals[r1], vals[r2]
     m = _ok_geo(a) or _ok_geo(b)
     if m: return m
     ax, ay = cart(a); bx, by = cart(b)
     scale = max(_scale(a), _scale(b))
+    blades = max(blades, a[3], b[3])
     err = mp.sqrt((ax - bx) ** 2 + (ay - by) ** 2)
-    if err > (2 * TOL + 64 * EPS + 2 * _blade_term(blades)) * scale + 8 * SQEPS * scale * (1 if scale < mp.mpf('1e-7') else 0):
+    canc = mp.mpf(0)
+    if operands:
+        oscale = sum((v(vals[r][1]) for r in operands), mp.mpf(0))
+        if scale < mp.mpf('1e-3') * oscale:
+            canc = 8 * SQEPS * oscale
+            scale = max(scale, mp.mpf('1e-3') * oscale)
+    if err > 2 * TOL * max(scale, mp.mpf(1)) + (64 * EPS + 2 * _blade_term(blades)) * scale + canc:
         return 'vectors differ by %s: (%s,%s) vs (%s,%s)' % (mp.nstr(err, 5), mp.nstr(ax, 12), mp.nstr(ay, 12), mp.nstr(bx, 12), mp.nstr(by, 12))
     return None
 
@@ -1107,4 +1116,9 @@ def c01_walk(vals, prog):
         elif k == 'F': m = None if fb.is_finite_bits(x[1]) else 'float result not finite'
         else: m = None
         if m: return 'r%d = %s: %s' % (i, op, m)
+    return None
+
+@pred
+def len_equal(vals, r1, r2):
+    if len(vals[r1][1]) != len(vals[r2][1]): return 'selection size changed under a whole-turn shift: %d vs %d' % (len(vals[r1][1]), len(vals[r2][1]))
     return None
